@@ -1,3 +1,218 @@
+(* C11/Props.v — property theorems only.  Each is closed by [exact] of a lemma from Lemmas.v and followed by
+   Print Assumptions (parsed by the check: must be "Closed under the global context").
+
+   Property C11: in a multi-player game every player variable and every piece of persisted device state
+   belongs to exactly one player: it is restored exactly when that player's next ball starts, is never
+   changed by anything that happens during another player's turn, a new game starts every player from the
+   configured initial values, and each player-variable change posts one event with the correct value,
+   previous value, change and player number.
+
+   The statements quantify over every configuration [c : cfg] and every state reachable by any history
+   (through the invariant [inv], established for all histories by [reachable_inv]). *)
 From Common Require Import Prelude.
 From C11 Require Import Model Lemmas.
 Open Scope Z_scope.
+
+(* every state of every history satisfies the invariant: in a running game the mode's player and the
+   devices' binding are the current player, whose variables hold the state of every device *)
+Theorem reachable_inv : forall c ops, inv c (run c init_state ops).
+Proof. exact reachable_inv_l. Qed.
+Print Assumptions reachable_inv.
+
+Theorem view_is_current :
+  forall c ops, let s := run c init_state ops in
+    ingame s = true -> view s = Some (cur s) /\ mplayer s = Some (cur s).
+Proof. exact view_is_current_l. Qed.
+Print Assumptions view_is_current.
+
+(* any operation sequence during player i's turn leaves every other player's variables unchanged *)
+Theorem other_player_frame :
+  forall c ops s i,
+    inv c s -> ingame s = true -> cur s = i -> turn_of i c s ops ->
+    forall j st, j <> i -> nth_error (players s) j = Some st ->
+                 nth_error (players (run c s ops)) j = Some st.
+Proof. exact other_player_frame_l. Qed.
+Print Assumptions other_player_frame.
+
+(* one operation of any kind (including the hand-over itself) touches at most the player whose turn it was
+   and the player whose turn it is afterwards *)
+Theorem step_frame :
+  forall c s o, inv c s -> ingame s = true -> ingame (fst (step c s o)) = true ->
+    forall j st, j <> cur s -> j <> cur (fst (step c s o)) ->
+      nth_error (players s) j = Some st -> nth_error (players (fst (step c s o))) j = Some st.
+Proof. exact step_frame_l. Qed.
+Print Assumptions step_frame.
+
+Example frame_hypotheses_satisfiable :
+  cfg_ok ex_cfg = true /\ inv ex_cfg ex_s /\
+  turn_of 0 ex_cfg ex_s [Post 100; Post 160; Post 161]
+  /\ nth_error (players (run ex_cfg ex_s [Post 100; Post 160; Post 161])) 0 <> nth_error (players ex_s) 0
+  /\ nth_error (players (run ex_cfg ex_s [Post 100; Post 160; Post 161])) 1 = nth_error (players ex_s) 1.
+Proof. exact (conj ex_cfg_ok (conj ex_inv ex_frame_hyp)). Qed.
+Print Assumptions frame_hypotheses_satisfiable.
+
+(* when it is player i's turn again (next ball, extra ball, any number of other players' turns, players
+   added meanwhile) every persisted device reads exactly what it read when i's previous ball ended: along
+   the history the only operations executed while it is i's turn are hand-over operations *)
+Theorem restore_exact :
+  forall c, cfg_ok c = true -> forall ops s i,
+    inv c s -> ingame s = true -> cur s = i -> quiet_for i c s ops ->
+    ingame (run c s ops) = true -> cur (run c s ops) = i ->
+    reads c (run c s ops) = reads c s.
+Proof. exact restore_exact_l. Qed.
+Print Assumptions restore_exact.
+
+Example restore_hypotheses_satisfiable :
+  quiet_for 0 ex_cfg ex_s ex_away
+  /\ ingame (run ex_cfg ex_s ex_away) = true /\ cur (run ex_cfg ex_s ex_away) = 0%nat
+  /\ nth_error (players (run ex_cfg ex_s ex_away)) 1 <> nth_error (players ex_s) 1
+  /\ reads ex_cfg (run ex_cfg ex_s ex_away) = reads ex_cfg ex_s
+  /\ reads ex_cfg (run ex_cfg ex_s [Drain]) <> reads ex_cfg ex_s.
+Proof. exact ex_restore_hyp. Qed.
+Print Assumptions restore_hypotheses_satisfiable.
+
+(* a new game does not depend on anything that happened before, and starts from the configured values *)
+Theorem new_game_independent :
+  forall c s1 s2, ingame s1 = false -> ingame s2 = false -> step c s1 Start = step c s2 Start.
+Proof. exact new_game_independent_l. Qed.
+Print Assumptions new_game_independent.
+
+Theorem new_game_initial :
+  forall c s, ingame s = false ->
+    let s' := fst (step c s Start) in
+    players s' = [first_store c] /\ cur s' = 0%nat /\ ingame s' = true /\ ending s' = false
+    /\ view s' = Some 0%nat.
+Proof. exact new_game_initial_l. Qed.
+Print Assumptions new_game_initial.
+
+Theorem added_player_fresh :
+  forall c s, ingame s = true ->
+    let s' := fst (step c s Start) in
+    players s' = players s \/ players s' = players s ++ [fresh_player c (length (players s))].
+Proof. exact added_player_fresh_l. Qed.
+Print Assumptions added_player_fresh.
+
+Example new_game_example :
+  ingame (run ex_cfg ex_s [EndGame]) = false
+  /\ players (fst (step ex_cfg (run ex_cfg ex_s [EndGame]) Start)) = [first_store ex_cfg]
+  /\ reads ex_cfg (fst (step ex_cfg (run ex_cfg ex_s [EndGame]) Start))
+     = [Some (VLB true false (LInt 0)); Some (VLB true false (LBools [false; false]));
+        Some (VInt 0); Some (VBool true)].
+Proof. exact ex_new_game. Qed.
+Print Assumptions new_game_example.
+
+(* one assignment player[x] = v: x holds v, no other variable changes, and exactly one player_<x> event
+   (value, prev_value, change = value - prev_value or "differs", the player's number) is posted iff v is an
+   int/str/float and x is new or the change is effective; otherwise none *)
+Theorem var_event_exact :
+  forall i st x v,
+    let prev := getvar x st in
+    let change := change_of v prev in
+    lookup x (fst (assign i st x v)) = Some v
+    /\ (forall y, y <> x -> lookup y (fst (assign i st x v)) = lookup y st)
+    /\ snd (assign i st x v)
+       = if simple v && (truthy change || is_absent x st)
+         then [mkEv i x v prev change (numvar (sset x v st)) (is_absent x st) false]
+         else [].
+Proof. exact assign_exact_l. Qed.
+Print Assumptions var_event_exact.
+
+Theorem no_event_iff_noop_int :
+  forall i st x a b, lookup x st = Some (VInt b) -> (snd (assign i st x (VInt a)) = [] <-> a = b).
+Proof. exact assign_int_noop_iff. Qed.
+Print Assumptions no_event_iff_noop_int.
+
+Theorem no_event_iff_noop_float :
+  forall i st x a b, lookup x st = Some (VF8 b) -> (snd (assign i st x (VF8 a)) = [] <-> a = b).
+Proof. exact assign_float_noop_iff. Qed.
+Print Assumptions no_event_iff_noop_float.
+
+Theorem no_event_iff_noop_str :
+  forall i st x a b, lookup x st = Some (VStr b) -> (snd (assign i st x (VStr a)) = [] <-> a = b).
+Proof. exact assign_str_noop_iff. Qed.
+Print Assumptions no_event_iff_noop_str.
+
+Theorem new_variable_posts :
+  forall i st x v, lookup x st = None -> simple v = true ->
+    snd (assign i st x v) = [mkEv i x v (VInt 0) (change_of v (VInt 0)) (numvar (sset x v st)) true false].
+Proof. exact assign_new_posts. Qed.
+Print Assumptions new_variable_posts.
+
+(* every event posted by any operation in any state is well formed: an int/str/float value, and either an
+   announcement of the current value (player added) or change = value - prev_value with an effective change
+   or a new variable *)
+Theorem step_events_ok : forall c s o, Forall ev_ok (snd (step c s o)).
+Proof. exact step_events_ok_l. Qed.
+Print Assumptions step_events_ok.
+
+Example event_examples :
+  snd (assign 0 [(n_number, VInt 1)] 13 (VInt 0))
+  = [mkEv 0 13 (VInt 0) (VInt 0) (VInt 0) (VInt 1) true false]
+  /\ snd (assign 0 [(n_number, VInt 1); (13, VInt 0)] 13 (VInt 0)) = []
+  /\ snd (assign 0 [(n_number, VInt 1); (13, VInt 7)] 13 (VStr [120]))
+     = [mkEv 0 13 (VStr [120]) (VInt 7) (VBool true) (VInt 1) false false].
+Proof. exact ex_events. Qed.
+Print Assumptions event_examples.
+
+(* player_num: the events carry the owning Player object's own `number` variable.  It is index + 1 when
+   the player is created and no write to another variable changes it (the configuration does not write
+   the built-in variable `number`: assumption listed in the evidence; the oracle checks
+   player_num = index + 1 on the implementation on every run). *)
+Theorem player_number_initial :
+  forall c i, lookup n_number (fresh_player c i) = Some (VInt (Z.of_nat i + 1)).
+Proof. exact fresh_player_number_l. Qed.
+Print Assumptions player_number_initial.
+
+Theorem player_number_kept :
+  forall i st ws, Forall (fun w => wname w <> n_number) ws ->
+    numvar (fst (apply_writes_store i st ws)) = numvar st.
+Proof. exact number_kept_l. Qed.
+Print Assumptions player_number_kept.
+
+(* for every history and every operation: every event carries player_num = index + 1 of the player
+   whose variable changed (the configuration does not write the built-in variable `number`) *)
+Theorem player_num_correct :
+  forall c, cfg_num_ok c = true -> forall ops o,
+    Forall (fun e => ev_num e = VInt (Z.of_nat (ev_idx e) + 1)) (snd (step c (run c init_state ops) o)).
+Proof. exact player_num_correct_l. Qed.
+Print Assumptions player_num_correct.
+
+(* the events of one operation, for every player and every variable, are an exact chain from the value
+   before to the value after: each event's prev_value is what the variable held (0 / new if absent), its
+   change is value - prev_value, it is an effective change or a new variable, and whatever happens to the
+   variable between two events or after the last one posts nothing only because it is a no-op assignment
+   or an object ([chain], [quiet], [silent] in Lemmas.v).  Together with var_event_exact: exactly one
+   player_<var> event per effective change, none otherwise, for every history. *)
+Theorem step_events_chain :
+  forall c s o, ingame s = true -> ingame (fst (step c s o)) = true ->
+    forall j y, (j < length (players s))%nat ->
+      chain j y (lookup y (store_of s j)) (snd (step c s o)) (lookup y (store_of (fst (step c s o)) j)).
+Proof. exact step_chain_l. Qed.
+Print Assumptions step_events_chain.
+
+Example chain_example :
+  ingame ex_s = true /\ ingame (fst (step ex_cfg ex_s (Post 100))) = true
+  /\ length (snd (step ex_cfg ex_s (Post 100))) = 2%nat
+  /\ lookup n_score (store_of ex_s 0) = Some (VInt 20)
+  /\ lookup n_score (store_of (fst (step ex_cfg ex_s (Post 100))) 0) = Some (VInt 30)
+  /\ lookup 14 (store_of (fst (step ex_cfg ex_s (Post 100))) 0) = Some (VInt 1000).
+Proof. exact ex_chain. Qed.
+Print Assumptions chain_example.
+
+(* a player's first ball (no device state in their variables yet): every device reads its configured
+   initial value *)
+Theorem first_ball_reads_initial :
+  forall c i st,
+    NoDup (load_keys c) ->
+    (forall k, In k (persist_keys c) -> lookup k st = None) ->
+    (forall x, In x (shots c) -> ~ In (s_var x) (load_keys c)) ->
+    reads_of c (fst (apply_writes_store i st (load_writes c st))) = initial_reads c.
+Proof. exact first_ball_reads_initial_l. Qed.
+Print Assumptions first_ball_reads_initial.
+
+Example first_ball_hypotheses_satisfiable :
+  NoDup (load_keys ex_cfg)
+  /\ (forall k, In k (persist_keys ex_cfg) -> lookup k (fresh_player ex_cfg 1) = None)
+  /\ (forall x, In x (shots ex_cfg) -> ~ In (s_var x) (load_keys ex_cfg)).
+Proof. exact ex_first_ball_hyp. Qed.
+Print Assumptions first_ball_hypotheses_satisfiable.
